@@ -39,6 +39,18 @@ ArgArr(args, i) ==
         n   == BCap(Sl(args, 4 + off, WB), Len(args) + 1)
     IN [k \in 1..n |-> Sl(args, 4 + off + WB * k, WB)]
 
+\* i-th argument of type bytes[] / string[]: the sequence of the byte sequences its elements denote (the element offsets
+\* are relative to the word after the length)
+ArgDynArr(args, i) ==
+    LET cap  == Len(args) + 1
+        off  == ArgNat(args, i, cap)
+        n    == BCap(Sl(args, 4 + off, WB), cap)
+        base == 4 + off + WB
+    IN [k \in 1..n |->
+          LET eo  == BCap(Sl(args, base + WB * (k - 1), WB), cap)
+              len == BCap(Sl(args, base + eo, WB), cap)
+          IN Sl(args, base + eo + WB, len)]
+
 IsOrd(op) == op \in {"Lt", "Gt", "Le", "Ge"}
 \* the stated relation between two operand words
 Rel(op, typ, a, b) ==
@@ -53,6 +65,7 @@ Rel(op, typ, a, b) ==
 AssertHolds(d, args) ==
     IF d.op = "True" THEN ~BIsZero(ArgWord(args, 0))
     ELSE IF d.op = "False" THEN BIsZero(ArgWord(args, 0))
+    ELSE IF d.arr /\ d.typ \in {"bytes", "string"} THEN (ArgDynArr(args, 0) = ArgDynArr(args, 1)) = (d.op = "Eq")
     ELSE IF d.arr THEN (ArgArr(args, 0) = ArgArr(args, 1)) = (d.op = "Eq")
     ELSE IF d.typ \in {"bytes", "string"} THEN (ArgDyn(args, 0) = ArgDyn(args, 1)) = (d.op = "Eq")
     ELSE Rel(d.op, d.typ, ArgWord(args, 0), ArgWord(args, 1))
